@@ -440,6 +440,26 @@ impl Builder {
         Some(build_tx(&payer, &[o], &outputs, ts, &[]))
     }
 
+    /// like `payment`, but the whole output (minus the fee) goes to the payee: the payer appears on
+    /// the input side of the transaction only
+    pub fn payment_all(&mut self, rng: &mut Rng, at: &Hash, from: usize, to: usize, fee: u64, exclude: &mut Vec<[u8; 59]>) -> Option<Transaction> {
+        let gp = self.params.gp;
+        if from == 0 && self.params.stake > 0 {
+            return None;
+        }
+        let ledger = self.store.ledger(at);
+        let payer = self.actors[from].clone();
+        let mut outs: Vec<OutRef> = ledger.safe_owned_by(&payer.pk, gp).into_iter().filter(|o| o.amount > fee && !exclude.contains(&o.key())).collect();
+        if outs.is_empty() {
+            return None;
+        }
+        let o = outs.swap_remove(rng.below(outs.len() as u64) as usize);
+        exclude.push(o.key());
+        let outputs = vec![(self.actors[to].pk, o.amount - fee)];
+        let ts = self.store.get(at).ts + 1 + rng.below(1000);
+        Some(build_tx(&payer, &[o], &outputs, ts, &[]))
+    }
+
     /// like `payment`, but the fee is a fraction of the spent output (burns value quickly)
     pub fn payment_fraction(
         &mut self,
